@@ -51,6 +51,17 @@ func VerifC11_SilenceCrash() {
 	vfAssert("snapshot-ok", err == nil)
 	vfFSPut("data/silences", buf.Bytes())
 
+	// long ago a run with a bigger store was killed after it had written and synced its
+	// temporary snapshot file and before renaming it: the leftover is still around
+	big, _ := hNew11("")
+	for _, v := range []string{"w", "x", "y", "z"} {
+		vfAssert("set-ok", big.Set(ctx, hSil11(v, now)) == nil)
+	}
+	if rf, err := openReplace("data/silences"); err == nil {
+		big.Snapshot(rf)
+		rf.File.Sync()
+	}
+
 	// 1 (quick) / 2 (thorough) rounds: the running instance was loaded from the file,
 	// one more silence is created (optionally the oldest expired), one maintenance run
 	// (the shutdown snapshot) is killed before its k-th file-system operation or runs to
